@@ -584,6 +584,16 @@ class Symbolic(
     if not path_value_pairs and raise_on_no_change:
       raise ValueError(self._error_message('There are no values to rebind.'))
     updates = self._sym_rebind(path_value_pairs)
+
+    # Let the updated containers settle their structure (e.g. list deletion and
+    # re-indexing), which shall not depend on whether change notification is
+    # enabled.
+    finalized = set()
+    for update in updates:
+      if id(update.target) not in finalized:
+        finalized.add(id(update.target))
+        update.target._finalize_updates()   # pylint: disable=protected-access
+
     if skip_notification is None:
       skip_notification = not flags.is_change_notification_enabled()
     if not skip_notification:
@@ -1154,6 +1164,13 @@ class Symbolic(
   #
   # Protected helper methods.
   #
+
+  def _finalize_updates(self) -> None:
+    """Settles the structure of current container after members are written.
+
+    Subclasses can override. It is called after each batch of updates,
+    regardless of whether change notification is enabled.
+    """
 
   def _set_raw_attr(self, name: str, value: Any) -> 'Symbolic':
     """Set raw property without trigger __setattr__."""
